@@ -18,6 +18,9 @@
 #include <oneapi/tbb/task_arena.h>
 #include <oneapi/tbb/spin_mutex.h>
 #include <atomic>
+#include <chrono>
+#include <thread>
+#include <cstdlib>
 #include <cstdio>
 #include <forward_list>
 #include <iostream>
@@ -76,7 +79,11 @@ static void record_chunk(const std::vector<std::pair<long long, long long>>& v) 
         if (!(v[i].first < v[i].second)) empty = true;
         if (v[i].first < root_dims[i].b || v[i].second > root_dims[i].e) oob = true;
     }
-    { tbb::spin_mutex::scoped_lock l(chunk_mx); chunks.push_back(v); }
+    {
+        tbb::spin_mutex::scoped_lock l(chunk_mx);
+        if (chunks.size() > 20000000) { puts("RUNAWAY"); fflush(stdout); _Exit(4); }   // a loop that never ends
+        chunks.push_back(v);
+    }
     if (empty) { empty_chunks++; return; }
     if (oob) { out_of_bounds++; return; }
     if (!count_elems) return;
@@ -149,9 +156,22 @@ struct InputIt {
     bool operator!=(const InputIt& o) const { return i != o.i; }
 };
 
-int main() {
+// watchdog: a loop of a broken tree may never end (or allocate tasks without end)
+static std::atomic<long long> deadline_ms{0};
+static long long now_ms() { return std::chrono::duration_cast<std::chrono::milliseconds>(std::chrono::steady_clock::now().time_since_epoch()).count(); }
+
+int main(int argc, char** argv) {
+    long long limit_ms = argc > 1 ? atoll(argv[1]) * 1000 : 120000;
+    std::thread([] {
+        for (;;) {
+            std::this_thread::sleep_for(std::chrono::milliseconds(200));
+            long long d = deadline_ms.load();
+            if (d && now_ms() > d) { puts("TIMEOUT"); fflush(stdout); _Exit(5); }
+        }
+    }).detach();
     std::string line;
     while (std::getline(std::cin, line)) {
+        deadline_ms = now_ms() + limit_ms;
         std::istringstream in(line);
         std::string op;
         if (!(in >> op)) continue;
